@@ -63,12 +63,14 @@ def parse_inline_params(s, preserve_order=True):
         )
 
         # Remove leading and trailing double quotes.
-        v = re.sub('^"', "", v)
-        v = re.sub('"$', "", v)
+        unquoted = re.sub('"$', "", re.sub('^"', "", v))
 
-        # Remove leading and trailing single quotes.
-        v = re.sub("^'", "", v)
-        v = re.sub("'$", "", v)
+        # Otherwise remove leading and trailing single quotes. A value enclosed in double
+        # quotes keeps the apostrophes it starts or ends with (i.e. "say 'x'").
+        if unquoted == v:
+            unquoted = re.sub("'$", "", re.sub("^'", "", v))
+
+        v = unquoted
 
         quotes_in_string = False
         if v != "":
